@@ -265,6 +265,7 @@ def parse_module(moddir, files):
             consts.append(("ALIAS_BWR", "bool", bwr == "true"))
             consts.append(("ALIAS_BYTECOUNT", "nat", eval_expr(expr2, env, where)))
             consts.append(("ALIAS_KIND", "str", col))
+            consts.append(("ALIAS_KIND_CODE", "nat", {"Color": 0, "TriColor": 1, "OctColor": 2}[col]))
     return enums, consts, skipped
 
 
